@@ -244,9 +244,11 @@ def main(chk):
     chk.assumptions += [
         "pyvc built-in models: range/list/len/comprehension-as-filter (order preserved, membership <=> source and condition), list.remove",
         "Port._operator is one of helpers.OPERATORS and operands are as produced by Port._line__items_to_ints (precondition `valid`)",
-        "the text path of the setters is proved for operands written as numbers (named ports go through the finite tables of C09), over an abstract text model: a "
+        "the text path of the setters is proved for operands written as numbers or as port keywords, over an abstract text model: a "
         "line is its whitespace tokens (ghost WS_LEN/WS_ARR = assumed model of str.split and ' '.join), a decimal token is ISDIGIT/STRINT with the assumed law "
-        "int(str(n)) == n, operands >= 1; sorted() leaves an ascending list unchanged (assumed)",
+        "int(str(n)) == n (numeric operands >= 1; 0 for lt/gt/neq), a keyword is a key of the ghost table of the expression; sorted() leaves an ascending list unchanged (assumed)",
+        "assumed contracts (contracts/c_port_names.py): PortName(protocol, platform, version) stores its arguments and .names() returns the keyword table of that "
+        "platform / software family: a finite map to numbers in 1..65535 whose keys are not decimal texts (every table entry is decided in C09)",
         "helpers.ports_to_string (encoder) is proved: the comma tokens of its result denote exactly the given ports, over the abstract token model "
         "(NUMSTR/RNGSTR shaped strings with LO/HI, ','.join as a ghost token list); helpers.string_to_ports / _port_range_min_max (decoder: sets, named tuples, "
         "set iteration order) is an assumed contract stated semantically, checked natively by the bounded codec clauses",
